@@ -38,7 +38,8 @@ KIND_OF = {PO: inspect.Parameter.POSITIONAL_ONLY, PK: inspect.Parameter.POSITION
            VK: inspect.Parameter.VAR_KEYWORD}
 FLAVOURS = ['function', 'method', 'classmethod', 'staticmethod', 'init', 'wraps']
 NAMES = ['alpha', 'beta', 'gamma', 'delta', 'eps', 'zeta']
-DOCS = [None, '"""One line."""', "'''Single quotes.'''", '"one-liner"',
+DOCS = [None, '"Build the target."', "'bisect helper'", '"""Buffer of bytes."""', '"Raw looking r text"', "'u is for unicode'",
+        '"""One line."""', "'''Single quotes.'''", '"one-liner"',
         '"""First line.\n\n    Indented more\n      and more.\n    """',
         '"""\n    Starts on the second line.\n\n    Ends with blank lines.\n\n    """',
         'r"""Raw \\n backslash \\d."""', 'u"""Unicode prefix."""',
